@@ -787,6 +787,15 @@ def rule_frag_route(ctx, cfg, F):
             if r.kind == "call" and r.id.endswith("::to_receiver"):
                 tt = g.term(r.block)
                 popped = any(x.kind == "call" and x.id == "std::vec::Vec::pop" for x in trg.roots_of_operand(tt["args"][0]))
+        if not (via_pop and popped):
+            # the raw form: OsIpcReceiver::from_fd(list.pop()) with `list` the descriptors copied out of this message's control data
+            from rules import fd as _fd
+            for r in roots:
+                if r.kind == "call" and r.id.endswith("::from_fd") and r.block is not None:
+                    tt = g.term(r.block)
+                    for x in trg.roots_of_operand(tt["args"][0]):
+                        if x.kind == "call" and x.id == "std::vec::Vec::pop" and x.block is not None and _fd._from_cmsg_list(g, trg, x.block):
+                            via_pop = popped = True
         if via_pop and popped and not from_param:
             R.ok("follow-up reads use the descriptor popped from this message's attachment list", g.loc(b), cfg)
         else:
@@ -821,7 +830,12 @@ def rule_dedicated_last(ctx, cfg, F):
         R.count("pops[%s]" % cfg, len(pops))
         for b, t in pops:
             V = _root_local(g, trg, t["args"][0])
-            pushes = [pb for pb, pt in g.calls_to("std::vec::Vec::push") if _root_local(g, trg, pt["args"][0]) == V]
+            pushes = [pb for pb, pt in g.calls() if strip_generics(callee_name(pt)) in ("std::vec::Vec::push", "std::vec::Vec::extend_from_slice", "std::vec::Vec::extend", "std::iter::Extend::extend")
+                      and _root_local(g, trg, pt["args"][0]) == V]
+            if not pushes and V is not None:
+                # the list was created whole from the control-message data (`slice.to_vec()`): its creation is the one append
+                pushes = [db for (db, si_, node) in g.defs().get(V, []) if si_ is None and (strip_generics(callee_name(node)).endswith("::to_vec") or strip_generics(callee_name(node)).endswith("::collect")
+                                                                                             or strip_generics(node.get("callee") or "") in ("std::borrow::ToOwned::to_owned", "std::convert::From::from"))]
             disturb = [pb for pb, pt in g.calls() if strip_generics(callee_name(pt)) in ("std::vec::Vec::insert", "std::vec::Vec::remove", "std::vec::Vec::swap_remove", "core::slice::reverse", "core::slice::swap", "std::vec::Vec::drain", "std::vec::Vec::truncate")
                        and _root_local(g, trg, pt["args"][0]) == V]
             in_loop = any(b in g.natural_loop(h) and any(p in g.natural_loop(h) for p in pushes) for h in g.loop_headers())
